@@ -300,9 +300,13 @@ pub fn csi_cases(thorough: bool, out: &mut Vec<Case>) {
         v.push(fin);
         v
     };
-    let sixel_tail = |mut v: Vec<u8>| {
+    // with a character behind the picture, or the picture as the last thing of the file (a character on row 2^31 ends in the heap
+    // cap before the picture is placed)
+    let sixel_tail = |mut v: Vec<u8>, with_char: bool| {
         v.extend_from_slice(SIXEL);
-        v.extend_from_slice(b"z\r\n");
+        if with_char {
+            v.extend_from_slice(b"z\r\n");
+        }
         v
     };
     let ans = target("ans");
@@ -311,13 +315,16 @@ pub fn csi_cases(thorough: bool, out: &mut Vec<Case>) {
     let wide_right: &[u8] = b"\x1b[8;30;132t\x1b[3;120H";
     for prefix in [&b""[..], &b"Hello\r\nworld \x1b[5;20r\x1b[?69h\x1b[10;70s\x1b[12;30Hab"[..], wide_right] {
         for fin in 0x40u8..=0x7E {
-            for l in [&[][..], &[1u32][..], &[2_147_483_647][..], &[200_000_000][..]] {
+            for (l, with_char) in [(&[][..], true), (&[1u32][..], thorough), (&[2_147_483_647][..], true), (&[2_147_483_647][..], false), (&[200_000_000][..], false)] {
                 if !thorough && l == [200_000_000] && !matches!(fin, b'B' | b'C' | b'E' | b'H' | b'd' | b'e' | b'a' | b'G' | b'f' | b'`') {
                     continue;
                 }
+                if l == [1] && !thorough {
+                    continue;
+                }
                 let mut v = prefix.to_vec();
-                v.extend(seq(if fin == b'b' { b'b' } else { fin }, &l.iter().map(|n| if fin == b'b' { (*n).min(9999) } else { *n }).collect::<Vec<_>>()));
-                out.push(Case { target: ans, src: Src::Raw(Bytes(sixel_tail(v))), inner: vec![], muts: vec![] });
+                v.extend(seq(fin, &l.iter().map(|n| if fin == b'b' { (*n).min(9999) } else { *n }).collect::<Vec<_>>()));
+                out.push(Case { target: ans, src: Src::Raw(Bytes(sixel_tail(v, with_char))), inner: vec![], muts: vec![] });
             }
         }
     }
@@ -329,11 +336,8 @@ pub fn csi_cases(thorough: bool, out: &mut Vec<Case>) {
         seq(b'B', &[2_147_483_647]),
         seq(b'B', &[200_000_000]),
         seq(b'C', &[2_147_483_647]),
-        seq(b'C', &[999]),
         seq(b'H', &[2_147_483_647, 2_147_483_647]),
         seq(b'H', &[1, 200]),
-        seq(b'H', &[3, 100]),
-        seq(b'G', &[131]),
         seq(b'd', &[65536]),
     ];
     for (i, a) in setups.iter().enumerate() {
@@ -346,7 +350,9 @@ pub fn csi_cases(thorough: bool, out: &mut Vec<Case>) {
                 v.extend_from_slice(a);
                 v.extend_from_slice(b);
                 v.extend_from_slice(m);
-                out.push(Case { target: ans, src: Src::Raw(Bytes(sixel_tail(v))), inner: vec![], muts: vec![] });
+                for with_char in [true, false] {
+                    out.push(Case { target: ans, src: Src::Raw(Bytes(sixel_tail(v.clone(), with_char))), inner: vec![], muts: vec![] });
+                }
             }
         }
     }
